@@ -24,8 +24,8 @@ from ..explore import pmap_acc
 PID = "C18"
 
 CAPS = [0.0, 1000.0, 3000.0]
-SOCS = [5.0, 20.0, 50.0, 80.0, 95.0]
-LIMITS = [(20.0, 80.0), (10.0, 90.0), (50.0, 50.0)]
+SOCS = [0.0, 5.0, 20.0, 50.0, 80.0, 100.0]
+LIMITS = [(20.0, 80.0), (0.0, 100.0), (50.0, 50.0)]
 PATTERNS_Q = [(), ("cap",), ("soc",), ("lo",), ("hi",), ("soc", "cap"), ("absent",)]
 PATTERNS_T = PATTERNS_Q + [("lo", "hi"), ("soc", "lo"), ("cap", "hi"), ("cap", "soc", "lo", "hi")]
 
@@ -400,8 +400,8 @@ def run(tier: str, seed: int, workers: int):
     acc = pmap_acc(_dispatch, shards, workers)
     acc.merge(fetcher_shard(None))
     meta = {
-        "rule": "n batteries (quick 1-2, thorough 1-3), each from capacity {0,1000,3000} x SoC {5,20,50,80,95} x limits "
-        "{(20,80),(10,90),(50,50)} x a missing-metric pattern (or absent from the data), every working subset; each case "
+        "rule": "n batteries (quick 1-2, thorough 1-3), each from capacity {0,1000,3000} x SoC {0,5,20,50,80,100} x limits "
+        "{(20,80),(0,100),(50,50)} x a missing-metric pattern (or absent from the data), every working subset; each case "
         "generated once; non-trivial = >= 2 working batteries with at least one missing metric somewhere; plus 16 NaN "
         "patterns through the real LatestBatteryMetricsFetcher on the virtual loop; plus the streaming path: two real SendOnUpdate "
         "instances (SoC, capacity) over the fake API, every history of depth 4 over {battery message (2-3 batteries x 2-3 data variants), "
